@@ -5,6 +5,7 @@ package main
 import (
 	"bytes"
 	"context"
+	"crypto/sha256"
 	"fmt"
 	"os"
 	"os/exec"
@@ -12,6 +13,7 @@ import (
 	"regexp"
 	"strings"
 	"sync"
+	"sync/atomic"
 	"time"
 )
 
@@ -173,10 +175,35 @@ func discharge(w *World, obls []*Obligation, opt dischargeOpts) {
 	wg.Wait()
 }
 
+// memo: answers for byte-identical goals, shared between the properties of one `check all` run (never across runs)
+var memoOn bool
+var solveMemo sync.Map
+var memoHits int64
+
+type memoEntry struct {
+	status, solver, output, model string
+	modelVal                      map[string]string
+}
+
 func dischargeOne(w *World, i int, o *Obligation, opt dischargeOpts) {
 	isCover := o.Kind == "cover"
 	file := filepath.Join(opt.workDir, fmt.Sprintf("o%04d_%s.smt2", i, trunc(mangle(o.Name), 80)))
-	if err := os.WriteFile(file, []byte(o.script(w, isCover, false)), 0o644); err != nil {
+	text := o.script(w, isCover, false)
+	if memoOn {
+		key := fmt.Sprintf("%x|%v|%d", sha256.Sum256([]byte(text)), isCover, opt.timeoutS)
+		if m, ok := solveMemo.Load(key); ok {
+			e := m.(memoEntry)
+			atomic.AddInt64(&memoHits, 1)
+			o.Status, o.Solver, o.Output, o.Model, o.ModelVal = e.status, e.solver, e.output+"\n(answer shared with an identical goal of this run)", e.model, e.modelVal
+			return
+		}
+		defer func() {
+			if o.Status == "unsat" || o.Status == "sat" {
+				solveMemo.Store(key, memoEntry{o.Status, o.Solver, o.Output, o.Model, o.ModelVal})
+			}
+		}()
+	}
+	if err := os.WriteFile(file, []byte(text), 0o644); err != nil {
 		o.Status, o.Output = "error", err.Error()
 		return
 	}
